@@ -104,6 +104,30 @@ def env():
     return _ENV
 
 
+def normal_pos(recs):
+    """for every record: (index among the normal records, number of normal records), None for warm-up records"""
+    nn = sum(1 for r in recs if r[1])
+    out, k = [], 0
+    for r in recs:
+        if r[1]:
+            out.append((k, nn))
+            k += 1
+        else:
+            out.append(None)
+    return out
+
+
+def has_metric(ti, metric, j, n):
+    """which request metrics the j-th of n *normal* records of task ti carries: the first task has all of them; the second task has latency
+    only for the first half of its normal records and processing_time for all but the last one (service_time, on which the error rate is
+    based, always).  Warm-up records carry everything, so removing them does not change what the normal records carry."""
+    if ti == 0 or metric in ("service_time", "throughput"):
+        return True
+    if metric == "latency":
+        return j < (n + 1) // 2
+    return j < n - 1 or n == 1
+
+
 def build_store(records):
     """records: {task index: list of (value, is_normal, success)}"""
     e = env()
@@ -113,16 +137,26 @@ def build_store(records):
     k = 0
     for ti, recs in records.items():
         name, opname, optype = TASKS[ti]
-        for value, normal, success in recs:
+        pos = normal_pos(recs)
+        for j, (value, normal, success) in enumerate(recs):
             st = m.SampleType.Normal if normal else m.SampleType.Warmup
             k += 1
             meta = {"success": success}
+            if ti == 0:
+                # a dependent sub-request of a composite operation: recorded under the same task with the sub-request's own operation
+                # and operation type; it belongs to neither the task's service-time statistics nor its error rate
+                store.put_value_cluster_level(
+                    "service_time", value * 7 + 1000, "ms", task=name, operation="sub-request", operation_type="raw-request", sample_type=st,
+                    absolute_time=1000.0 + k, relative_time=float(k), meta_data={"success": True},
+                )
             for metric, v, unit in (
                 ("latency", value, "ms"),
                 ("service_time", value * 0.5, "ms"),
                 ("processing_time", value * 2, "ms"),
                 ("throughput", value * 10, "docs/s"),
             ):
+                if pos[j] is not None and not has_metric(ti, metric, pos[j][0], pos[j][1]):
+                    continue
                 store.put_value_cluster_level(
                     metric, v, unit, task=name, operation=opname, operation_type=optype, sample_type=st,
                     absolute_time=1000.0 + k, relative_time=float(k), meta_data=meta,
@@ -130,17 +164,19 @@ def build_store(records):
     return store
 
 
-def expect_task(recs):
+def expect_task(recs, ti=0):
     normal = [r for r in recs if r[1]]
     n = len(normal)
     out = {"n": n}
     for metric, factor in (("latency", 1), ("service_time", 0.5), ("processing_time", 2)):
-        vals = sorted(fractions.Fraction(str(r[0])) * fractions.Fraction(str(factor)) for r in normal)
+        vals = sorted(fractions.Fraction(str(r[0])) * fractions.Fraction(str(factor)) for j, r in enumerate(normal) if has_metric(ti, metric, j, n))
         if not vals:
             out[metric] = {}
             continue
-        d = {enc(p): ref_percentile(vals, p) for p in ref_percentile_set(n)}
-        d["mean"] = sum(vals) / n
+        # the percentile set of a metric depends on the number of normal samples of *that* metric
+        d = {enc(p): ref_percentile(vals, p) for p in ref_percentile_set(len(vals))}
+        d["mean"] = sum(vals) / len(vals)
+        d["_n"] = len(vals)
         d["unit"] = "ms"
         d["_min"], d["_max"], d["_median"] = vals[0], vals[-1], fractions.Fraction(statistics.median(vals))
         out[metric] = d
@@ -162,7 +198,7 @@ def compare_task(entry, exp, all_zero_thr):
         gk = [k for k in got if k not in ("mean", "unit")]
         wk = [k for k in want if k not in ("mean", "unit") and not k.startswith("_")]
         if gk != wk:
-            return ("percentile-set", f"{metric}: {exp['n']} normal samples report percentiles {gk}, expected {wk}")
+            return ("percentile-set", f"{metric}: {want.get('_n', exp['n'])} normal samples report percentiles {gk}, expected {wk}")
         prev = None
         for k in wk:
             if not close(got[k], want[k]):
@@ -220,7 +256,7 @@ def check_case(records, res, roundtrip=True):
             if v:
                 break
             recs = records.get(ti, [])
-            exp = expect_task(recs)
+            exp = expect_task(recs, ti)
             ent = gs.metrics(name)
             if ent is None or ent.get("task") != name:
                 v = ("metrics-lookup", f"metrics({name!r}) returned the entry of task {ent.get('task') if ent else None!r}")
